@@ -322,6 +322,106 @@ type genCase struct {
 	extract string // proto helper whose argument is the generated value
 }
 
+// r16_3capOnEveryPath: with an explicit maxLen present, every generated
+// minLen (each store into the effective MinLen that the comparison does not
+// dominate, i.e. each draw, whatever branch it sits in) must pass through the
+// comparison with the explicit maxLen before the generator returns. The
+// presence tests (c.original.Nonce != nil, ...MaxLen != nil, also through
+// Get* accessors) are the condition atoms and are assumed true.
+func r16_3capOnEveryPath(c *RC, gn *ssa.Function, cmps []*ssa.BinOp) {
+	var pathOf func(v ssa.Value, d int) string
+	pathOf = func(v ssa.Value, d int) string {
+		if d > 8 {
+			return "?"
+		}
+		switch x := v.(type) {
+		case *ssa.Parameter:
+			return x.Name()
+		case *ssa.UnOp:
+			if x.Op == token.MUL {
+				return pathOf(x.X, d+1)
+			}
+		case *ssa.FieldAddr:
+			if f, base := fieldOfAddr(x); f != nil {
+				return pathOf(base, d+1) + "." + f.Name()
+			}
+		case *ssa.Call:
+			n := calleeName(x)
+			if args := callArgs(x); strings.HasPrefix(n, "Get") && len(args) == 1 {
+				return pathOf(args[0], d+1) + "." + strings.TrimPrefix(n, "Get")
+			}
+		}
+		return "?"
+	}
+	atom := func(cond ssa.Value) (string, int, bool) {
+		v, neg := condAtom(cond)
+		bo, ok := v.(*ssa.BinOp)
+		if !ok || (bo.Op != token.NEQ && bo.Op != token.EQL) {
+			return "", 0, false
+		}
+		var other ssa.Value
+		switch {
+		case isNilConst(bo.Y):
+			other = bo.X
+		case isNilConst(bo.X):
+			other = bo.Y
+		default:
+			return "", 0, false
+		}
+		ap := pathOf(other, 0)
+		if !strings.Contains(ap, ".original.") || !(strings.HasSuffix(ap, ".Nonce") || strings.HasSuffix(ap, ".MaxLen")) {
+			return "", 0, false
+		}
+		ti := 0
+		if bo.Op == token.EQL {
+			ti = 1
+		}
+		if neg {
+			ti = 1 - ti
+		}
+		return "explicit-maxlen", ti, true
+	}
+	isCmp := func(in ssa.Instruction) bool {
+		for _, b := range cmps {
+			if in == ssa.Instruction(b) {
+				return true
+			}
+		}
+		return false
+	}
+	draws := 0
+	instrs(gn, func(_ *ssa.BasicBlock, _ int, in ssa.Instruction) {
+		st, ok := in.(*ssa.Store)
+		if !ok {
+			return
+		}
+		f, _ := fieldOfAddr(st.Addr)
+		if f == nil || f.Name() != "MinLen" {
+			return
+		}
+		for _, b := range cmps {
+			if b.Block().Dominates(st.Block()) {
+				return // the capping store itself
+			}
+		}
+		draws++
+		key := "minlen-capped-on-every-path@draw" + fmtInt(draws)
+		ex := &Explorer{Fn: gn, Atom: atom, Assume: map[string]bool{"explicit-maxlen": true}}
+		hit := ex.ReachFrom(st, func(in ssa.Instruction) bool { _, ok := in.(*ssa.Return); return ok }, isCmp)
+		switch {
+		case ex.Over:
+			c.Undecided(key, st.Pos(), "exploration budget exceeded")
+		case hit != nil:
+			c.Bad(key, st.Pos(), "a minLen drawn here reaches the end of generateNoncePattern without being compared with an explicitly configured maxLen (the cap covers another branch only): with this draw {nonce:{maxLen:k}} can yield minLen > maxLen and the effective pattern fails Validate")
+		default:
+			c.OKH(key, st.Pos(), "with an explicit maxLen present every path from this draw to the return passes the comparison that caps it (%d states)", ex.States)
+		}
+	})
+	if draws == 0 {
+		c.Undecided("minlen-capped-on-every-path", gn.Pos(), "no store of a generated MinLen found in generateNoncePattern")
+	}
+}
+
 func r16_3(c *RC) {
 	p := c.P
 	// (a) minLen capped by explicit maxLen
@@ -331,6 +431,7 @@ func r16_3(c *RC) {
 		return
 	}
 	capped := false
+	var capCmps []*ssa.BinOp
 	instrs(gn, func(_ *ssa.BasicBlock, _ int, in ssa.Instruction) {
 		bo, ok := in.(*ssa.BinOp)
 		if !ok || (bo.Op != token.GTR && bo.Op != token.LSS && bo.Op != token.GEQ && bo.Op != token.LEQ) {
@@ -353,10 +454,12 @@ func r16_3(c *RC) {
 		}
 		if hasMin && hasMaxOrig {
 			capped = true
+			capCmps = append(capCmps, bo)
 		}
 	})
 	if capped {
 		c.OKH("minlen-vs-explicit-maxlen", gn.Pos(), "the generated minLen is compared with an explicit original maxLen (and capped)")
+		r16_3capOnEveryPath(c, gn, capCmps)
 	} else {
 		c.Bad("minlen-vs-explicit-maxlen", gn.Pos(), "the implicit minLen (6..12, or 0..12 with unlockAll) ignores an explicitly configured maxLen: {nonce:{maxLen:3}} yields minLen > maxLen and the effective pattern fails Validate")
 	}
